@@ -98,7 +98,12 @@ PENDING = {}
 TECH_BOTH_WAYS = {
     'C01': '; the table is extracted from change_state with can_change inlined; must-pass-through rules in both directions '
            '(every update reaches the table unfiltered, every payload of an active sender reaches apply_many)',
-    'C08': '; exact (zero-split) transition table; payload-order preservation of Notification::to_owned',
+    'C06': '; scratch/ownership discipline of the send buffer (cleared before use, put back on every exit) and of the '
+           'helper-selection buffer as sub-conditions of the assertions they discharge',
+    'C07': '; the datagram buffer starts empty on every path; serialize_member encodes one member into a fresh Vec',
+    'C08': '; exact (zero-split) transition table; payload-order preservation of Notification::to_owned; leave_cluster '
+           'always ends Defunct; the TurnUndead reaction is not vetoed by the rest of the datagram',
+    'C09': '; payload consumers only after (never before) the sender check; every item of a batch is handed over',
     'C10': '; converse must-pass-through: every own-identity update and every TurnUndead path reaches handle_self_update',
     'C11': '; converse of the epoch guard: a current-epoch timeout always attempts the update',
     'C12': '; relay table in both directions (only-if and always), justified-refusal rule for evidence, '
